@@ -20,12 +20,18 @@ MODELS = [
     (3, 11, True, 104),   # D   different namespace, same name as A
     (1, 11, True, 105),   # A'  identical namespace and name as A
     (4, 14, False, 106),  # E   fails to build (input data without type reference)
+    (5, 15, True, 107),   # G   another namespace; its NAME is A's name followed by a blank (a different name: seeded change C17_f trimmed keys)
 ]
+
+
+def nm_text(k):
+    """the text of name number k: name 15 is name 11 followed by a blank"""
+    return 'm11 ' if k == 15 else 'm%d' % k
 
 
 def xml(m):
     ns, nm, builds, val = m
-    head = '<?xml version="1.0" encoding="UTF-8"?><definitions namespace="ns%d" name="m%d" id="d1" xmlns="https://www.omg.org/spec/DMN/20191111/MODEL/">' % (ns, nm)
+    head = '<?xml version="1.0" encoding="UTF-8"?><definitions namespace="ns%d" name="%s" id="d1" xmlns="https://www.omg.org/spec/DMN/20191111/MODEL/">' % (ns, nm_text(nm))
     if builds:
         body = '<decision name="dec" id="dd1"><variable name="dec"/><literalExpression><text>%d</text></literalExpression></decision>' % val
     else:
@@ -67,9 +73,9 @@ def impl_op(o):
     if k in ('add', 'replace'):
         return [k, o[1]]
     if k == 'remove':
-        return ['remove', 'ns%d' % o[1], 'm%d' % o[2]]
+        return ['remove', 'ns%d' % o[1], nm_text(o[2])]
     if k == 'eval':
-        return ['eval', 'm%d' % o[1], 'dec', '{x: 1}']
+        return ['eval', nm_text(o[1]), 'dec', '{x: 1}']
     return [k]
 
 
@@ -88,12 +94,12 @@ def spec_violation(hist, steps):
             return 'by-name lookup %s does not describe the stored list %s' % (s['by_name'], defs)
         if o[0] == 'add':
             m = MODELS[o[1]]
-            free = all(d[0] != 'ns%d' % m[0] and d[1] != 'm%d' % m[1] for d in prev_defs)
+            free = all(d[0] != 'ns%d' % m[0] and d[1] != nm_text(m[1]) for d in prev_defs)
             if st['r'] is not free:
                 return 'add of (ns%d, m%d) returned %s although free=%s in %s' % (m[0], m[1], st['r'], free, prev_defs)
         if o[0] == 'replace':
             m = MODELS[o[1]]
-            if st['r'] is not True or ('ns%d' % m[0], 'm%d' % m[1]) not in defs:
+            if st['r'] is not True or ('ns%d' % m[0], nm_text(m[1])) not in defs:
                 return 'replace of (ns%d, m%d) did not leave the model stored: %s %s' % (m[0], m[1], st['r'], defs)
         prev_defs = defs
     return None
@@ -104,9 +110,9 @@ def expected_steps(hist, trace):
     evaluation: OEval (Some doc) -> {'deployed': doc}."""
     exp = []
     for o, (out, s) in zip(hist, trace):
-        defs = [['ns%d' % d['ns'], 'm%d' % d['nm']] for d in s['defs']]
-        snap = {'defs': defs, 'by_ns': sorted('ns%d' % x for x in set(s['by_ns'])), 'by_name': sorted('m%d' % x for x in set(s['by_nm'])),
-                'evs': sorted('m%d' % k for k in set(k for k, _ in s['evs']))}
+        defs = [['ns%d' % d['ns'], nm_text(d['nm'])] for d in s['defs']]
+        snap = {'defs': defs, 'by_ns': sorted('ns%d' % x for x in set(s['by_ns'])), 'by_name': sorted(nm_text(x) for x in set(s['by_nm'])),
+                'evs': sorted(nm_text(k) for k in set(k for k, _ in s['evs']))}
         if out.name == 'OAdd':
             r = out.args[0]
         elif out.name == 'OUnit':
@@ -377,16 +383,19 @@ def random_histories(ctx, n_ex):
               [('add', 0), ('add', 1), ('replace', 3), ('add', 0), ('deploy',), ('eval', 11)],
               [('add', 0), ('deploy',), ('eval', 11), ('replace', 4), ('deploy',), ('eval', 11), ('replace', 0), ('eval', 11), ('deploy',), ('eval', 11)]]
     rnd = []
-    evals = [o for o in ALPHABET if o[0] == 'eval']
+    # the random histories also use document G (a name that differs from A's by a trailing blank): operations outside the exhaustive alphabet
+    WIDE = ALPHABET + [('add', 6), ('add', 6), ('replace', 6), ('eval', 15), ('eval', 15), ('remove', 5, 15)]
+    evals = [o for o in WIDE if o[0] == 'eval']
+    corpus += [[('add', 0), ('add', 6), ('deploy',), ('eval', 11), ('eval', 15)], [('add', 6), ('add', 0), ('deploy',), ('eval', 15), ('eval', 11), ('remove', 5, 15), ('deploy',), ('eval', 11), ('eval', 15)]]
     for j in range(ctx.pick(1500, 20000)):
         L = ctx.rng.randint(n_ex + 1, ctx.pick(14, 60))
         if j % 2 == 0:
-            rnd.append([ctx.rng.choice(ALPHABET) for _ in range(L)])
+            rnd.append([ctx.rng.choice(WIDE) for _ in range(L)])
         else:
             # every third operation on average is followed by deploy and an evaluation, so that evaluations are answered with values
             h = []
             while len(h) < L:
-                h.append(ctx.rng.choice(ALPHABET))
+                h.append(ctx.rng.choice(WIDE))
                 if ctx.rng.random() < 0.35:
                     h += [('deploy',), ctx.rng.choice(evals)]
                     if ctx.rng.random() < 0.3:
